@@ -13,11 +13,13 @@ package main
 
 import (
 	"fmt"
+	"runtime"
 	"sort"
 	"strings"
 
 	"diagonal.works/b6/encoding"
 	"verif/kit"
+	"verif/racekit"
 	"verif/sched"
 	"verif/sched/vsync"
 )
@@ -283,6 +285,35 @@ func (s cwScenario) check() sched.Check {
 		}
 		return "ok:reads-back", fails
 	}
+}
+
+// raceBodies runs every concurrent-writers scenario free-running (no
+// controlled execution is active, so sched.Go is a plain go statement and the
+// vsync shims are the real sync types); built with -race from the
+// un-rewritten tree by the race-pass case. What the scheduler cannot see — an
+// access that has no synchronisation operation between it and a conflicting
+// one — is what the detector reports.
+func raceBodies(iters int) {
+	runtime.GOMAXPROCS(16)
+	scs := append(cwScenarios("bytearrays", 2, 3), cwScenarios("map", 2, 3)...)
+	scs = append(scs, cwScenarios("bytearrays", 3, 3)...)
+	scs = append(scs, cwScenarios("map", 3, 3)...)
+	for it := 0; it < iters; it++ {
+		for _, s := range scs {
+			s.body()()
+		}
+	}
+	fmt.Println("race pass done")
+}
+
+func raceSection(tier string) section {
+	return section{name: "concurrent-writers-race-pass", n: 1, run: func(j int64, r *kit.Result) {
+		iters := "20"
+		if tier == "thorough" {
+			iters = "300"
+		}
+		racekit.Pass(r, "c09", "./checks/c09", "", nil, []string{"VERIF_RACE_BODY=" + iters})
+	}}
 }
 
 func concurrentSections(tier string) []section {
